@@ -405,9 +405,10 @@ class ModuleVistor(NodeVisitor):
             if ob is None:
                 current.report("cannot resolve re-exported name :"
                                         f'{modname}.{origin_name}', thresh=1)
-            elif ob is current or ob in _parents(current):
-                # An object can't be moved into itself or into one of its own members.
-                current.report("cannot re-export the enclosing object :"
+            elif ob is current or ob in _parents(current) or ob.parent is None:
+                # An object can't be moved into itself or into one of its own members,
+                # and a root module or package stays where it is.
+                current.report("cannot re-export the enclosing object or a root :"
                                         f'{modname}.{origin_name}', thresh=1)
             else:
                 if origin_module.all is None or origin_name not in origin_module.all:
